@@ -84,7 +84,8 @@ FieldOf == [name |-> NA, pd |-> kind, cells |-> cells, idx |-> [i \in 1..Len(cel
 
 Init == /\ kind \in Kinds /\ cells \in Fields(kind)
         /\ cont \in {"column", "index", "series", "multiindex"}
-                \cup (IF kind = "int64" THEN {"nocols", "duplabels"} ELSE {})     \* frame shapes: no column at all / a repeated label
+                \cup (IF kind = "int64" THEN {"nocols", "duplabels", "mi_dupnames"} ELSE {})
+                \* frame shapes: no column at all / a repeated column label / a MultiIndex whose two levels share one name
         /\ pc = "data" /\ schema = <<>>
 DoInfer == pc = "data" /\ schema' = Infer(kind, cells, NA) /\ pc' = "inferred" /\ UNCHANGED <<kind, cells, cont>>
 DoValidate == pc = "inferred" /\ pc' = "validated" /\ UNCHANGED <<kind, cells, cont, schema>>
